@@ -182,7 +182,35 @@ func holds(f *filt, r *Row) bool {
 	panic("bad filter kind " + f.Kind)
 }
 
+// faultDB wraps the kv store so that the kv commit of a chosen transaction can be made to fail
+// (storage fault / aspen commit failure): Commit returns an error without applying the batch.
+var errInjected = errors.New("c17: injected kv commit failure")
+
+type faultTx struct {
+	kv.Tx
+	fail bool
+}
+
+func (f *faultTx) Commit(ctx context.Context, opts ...any) error {
+	if f.fail {
+		return errInjected
+	}
+	return f.Tx.Commit(ctx, opts...)
+}
+
+type faultDB struct {
+	kv.DB
+	last *faultTx
+}
+
+func (f *faultDB) OpenTx() kv.Tx {
+	f.last = &faultTx{Tx: f.DB.OpenTx()}
+	return f.last
+}
+
 type world struct {
+	fdb    *faultDB
+	ftx    map[int]*faultTx
 	ctx    context.Context
 	mode   int
 	kvdb   kv.DB
@@ -408,6 +436,7 @@ func (w *world) step(o op) (res out) {
 			return
 		}
 		w.txs[o.T] = w.db.OpenTx()
+		w.ftx[o.T] = w.fdb.last
 	case "create":
 		tx, ok := w.tx(o.T)
 		if !ok {
@@ -533,6 +562,14 @@ func (w *world) step(o op) (res out) {
 			err = inner
 		}
 		res.E = errClass(err)
+	case "commit_fail":
+		// the kv commit of t returns an error; gorp must treat the transaction as not committed
+		if _, ok := w.txs[o.T]; !ok {
+			res.E = 3
+			return
+		}
+		w.ftx[o.T].fail = true
+		res.E = errClass(w.commit(o.T))
 	case "abort":
 		tx, ok := w.txs[o.T]
 		if !ok {
@@ -607,8 +644,10 @@ func runCase(c tcase) (res result) {
 			res.Panic = &s
 		}
 	}()
-	w := &world{ctx: context.Background(), mode: c.Mode, txs: map[int]gorp.Tx{}, avals: c.AVals, bvals: c.BVals}
-	w.kvdb = memkv.New()
+	w := &world{ctx: context.Background(), mode: c.Mode, txs: map[int]gorp.Tx{}, ftx: map[int]*faultTx{},
+		avals: c.AVals, bvals: c.BVals}
+	w.fdb = &faultDB{DB: memkv.New()}
+	w.kvdb = w.fdb
 	if c.Mode == 0 {
 		w.obs = observe.New[kv.TxReader]()
 		w.db = gorp.Wrap(w.kvdb, gorp.WithIndexObservable(w.obs))
